@@ -45,7 +45,10 @@ OtherHash == 2
 
 ByzKinds == {"otherHash", "replay", "garbage", "offcurve", "badRand", "emptyRand",
              (* correlated corruptions of the two shares: each field invalid on its own, their sum right *)
-             "swapped", "shiftRandom", "shiftSmall"}
+             "swapped", "shiftRandom", "shiftSmall",
+             (* the sender's own valid share of an EARLIER block's round (verified there by this node),
+                re-sent with the data hash rewritten to this block's hash, with a valid beacon share *)
+             "staleShare"}
 
 (* messages filed under the RECEIVER's own id (this node is member 1): garbage points, another
    member's valid shares, the faulty sender's own valid shares *)
@@ -58,7 +61,8 @@ SelfKinds == {"selfGarbage", "selfOther", "selfSender"}
    late member's key is not known when the round starts (focus "keys"). *)
 LateMember == 2
 KeyedMember == 3
-KeyKinds == {"announce", "announceOther"}
+KeyKinds == {"announce", "announceOther", "announceOutsider"}   \* the last: a node that is no member announces a key for its own id
+KeyHolders == Members \cup {Outsider}
 
 Msg(s, k, src) == [sender |-> s, kind |-> k, src |-> src]
 
@@ -66,7 +70,8 @@ Alphabet ==
   IF Focus = "keys"
     THEN {Msg(s, "honest", 0) : s \in Members} \cup
          {Msg(LateMember, "announce", 0)} \cup
-         {Msg(s, k, 0) : s \in {LateMember, KeyedMember}, k \in {"announceOther", "underOtherKey"}}
+         {Msg(s, k, 0) : s \in {LateMember, KeyedMember}, k \in {"announceOther", "underOtherKey"}} \cup
+         {Msg(Outsider, "announceOutsider", 0), Msg(Outsider, "nonMember", 0)}
     ELSE {Msg(s, "honest", 0) : s \in Members} \cup
          {Msg(s, k, 0) : s \in Byz, k \in ByzKinds \ {"replay"}} \cup
          UNION {{Msg(s, "replay", t) : t \in Members \ {s}} : s \in Byz} \cup
@@ -77,7 +82,7 @@ Alphabet ==
 IsMember(m)  == m.sender \in Members
 Signed(m)    == IF m.kind = "otherHash" THEN OtherHash ELSE H
 SigOK(m)     == m.kind \in {"honest", "otherHash", "badRand", "emptyRand", "nonMember"}        \* under the GENUINE key
-RandOK(m)    == m.kind \in {"honest", "otherHash", "garbage", "offcurve", "nonMember"}
+RandOK(m)    == m.kind \in {"honest", "otherHash", "garbage", "offcurve", "nonMember", "staleShare"}
 ValidForH(m) == SigOK(m) /\ Signed(m) = H
 Honest(m)    == m.kind = "honest"
 IsKeyMsg(m)  == m.kind \in KeyKinds
@@ -92,7 +97,7 @@ VARIABLES keys,       \* member -> "none" | "genuine" | "other": the share key t
           hist        \* messages handled so far
 vars == <<keys, counted, rcounted, recovered, sigValid, hist>>
 
-InitKeys == [s \in Members |-> IF Focus = "keys" /\ s = LateMember THEN "none" ELSE "genuine"]
+InitKeys == [s \in KeyHolders |-> IF s = Outsider \/ (Focus = "keys" /\ s = LateMember) THEN "none" ELSE "genuine"]
 
 Init == /\ keys = InitKeys
         /\ counted = <<>> /\ rcounted = {} /\ recovered = FALSE /\ sigValid = FALSE /\ hist = <<>>
@@ -105,10 +110,11 @@ Dom(f) == DOMAIN f
 KeysAfter(ks, m, ascoded) ==
   IF ~IsKeyMsg(m) \/ ks[m.sender] # "none" THEN ks
   ELSE IF m.kind = "announce" THEN [ks EXCEPT ![m.sender] = "genuine"]
+  ELSE IF m.kind = "announceOutsider" /\ ~ascoded THEN ks          \* not a member: nothing to store
   ELSE IF ascoded THEN [ks EXCEPT ![m.sender] = "other"] ELSE ks
 
 (* is the share checked against a key under which it can pass? *)
-KeyAdmits(ks, m) == IF m.kind = "underOtherKey" THEN ks[m.sender] = "other" ELSE ks[m.sender] = "genuine"
+KeyAdmits(ks, m) == IF m.sender \notin Members THEN FALSE ELSE IF m.kind = "underOtherKey" THEN ks[m.sender] = "other" ELSE ks[m.sender] = "genuine"
 
 (* would the handler add the share of m in a state (ks, cnt, rec)? *)
 Accepts(ks, cnt, rec, m, ascoded) ==
@@ -160,13 +166,15 @@ Spec == Init /\ [][Next]_vars
 OnlyValidShares == AllValid(counted)
 ThresholdImpliesValidGroupSig == recovered => sigValid
 FaultyMembers == {hist[i].sender : i \in {j \in 1..Len(hist) : NotHonest(hist[j]) /\ IsMember(hist[j])}}
+OutsiderActive == \E i \in 1..Len(hist) : NotHonest(hist[i]) /\ ~IsMember(hist[i])
 AllHonestDelivered == \A s \in Members \ FaultyMembers : Delivered(Msg(s, "honest", 0))
 OneFaultTolerated ==
   (Cardinality(FaultyMembers) <= 1 /\ AllHonestDelivered) => (recovered /\ sigValid)
 BeaconFollowsBlock == rcounted = Dom(counted)
 (* shares are checked against the member's own key: the table never holds another one, and a stored
    key is never replaced *)
-KeyTableGenuine == \A s \in Members : keys[s] \in {"none", "genuine"}
+KeyTableGenuine == /\ \A s \in Members : keys[s] \in {"none", "genuine"}
+                   /\ keys[Outsider] = "none"
 TypeOK == Dom(counted) \subseteq Members /\ Cardinality(Dom(counted)) <= KThr
 
 ASSUME KThr <= NMem - 1 /\ Byz \subseteq Members
